@@ -1276,7 +1276,7 @@ class Router:
             nh=CommonNH.ANY,
             ht=HeaderType.LS,
             hst=cast(HeaderSubType, LocationServiceHST.LS_REQUEST),
-            tc=TrafficClass(),
+            tc=TrafficClass.decode_from_int(self.mib.itsGnDefaultTrafficClass),
             flags=self.mib.itsGnIsMobile.value << 7,
             pl=0,
             mhl=self.mib.itsGnDefaultHopLimit,
@@ -1436,7 +1436,7 @@ class Router:
                     nh=CommonNH.ANY,
                     ht=HeaderType.LS,
                     hst=cast(HeaderSubType, LocationServiceHST.LS_REPLY),
-                    tc=TrafficClass(),
+                    tc=TrafficClass.decode_from_int(self.mib.itsGnDefaultTrafficClass),
                     flags=self.mib.itsGnIsMobile.value << 7,
                     pl=0,
                     mhl=self.mib.itsGnDefaultHopLimit,
